@@ -1317,7 +1317,7 @@ def gen_upgrade_body_case(rng, fixed=None):
         steps = [["data", (head + body[:first]).hex()], ["data", (body[first:] + nxt).hex()]]
     else:
         steps = [["data", (head + body[:first]).hex()], ["data", body[first:].hex()], ["data", nxt.hex()]]
-    return {"suite": "upgrade", "beh": beh, "steps": steps, "ka": KA, "linger": LINGER, "nreq": 2, "declined_upgrade_body_late": True}
+    return {"suite": "upgrade", "beh": beh, "steps": steps, "ka": KA, "linger": LINGER, "nreq": 2}
 
 
 def special_fixed_cases(rng):
@@ -1427,15 +1427,8 @@ def _sig_stream_then_other_response(case, params):
     return case.get("vkind") in ("malformed-wire", "order", "incomplete-open", "unanswered-open") and "stream_other" in case.get("ran_kinds", [])
 
 
-def _sig_declined_upgrade_body_late(case, params):
-    """Upgrade request with a body, answered (declined) before the body ended: the parser switches to 'upgraded' afterwards and
-    the following requests stay in _message_tail"""
-    return case.get("vkind") == "orphaned" and bool(case.get("declined_upgrade_body_late"))
-
-
 SIGNATURES = {
     "stream_then_other_response": _sig_stream_then_other_response,
-    "declined_upgrade_body_late": _sig_declined_upgrade_body_late,
 }
 
 
